@@ -731,6 +731,9 @@ func propC08(run *Run, n int) {
 	keyed2 := func() GenCfg { c := DefaultCfg(); c.SetKeys = []string{"id", "k"}; c.Keys = []string{"a", "id", "k", "x"}; c.ScalarBias = 3; return c }
 	choices := []ch{{OptSetO, DefaultCfg, "SET"}, {OptMset, DefaultCfg, "MULTISET"}, {OptKeys("id"), keyed, "SetKeys(id)"}, {OptKeys("id"), keyed, "SetKeys(id)"}, {OptKeys("id", "k"), keyed2, "SetKeys(id,k)"}}
 	for i := 0; i < n; i++ {
+		if i%25 == 0 {
+			addTypedTargetTies(run, r)
+		}
 		c := choices[r.Intn(len(choices))]
 		cfg := c.cfg()
 		if len(cfg.SetKeys) > 1 && r.Chance(1, 5) {
@@ -1071,6 +1074,65 @@ func addC08Branching(run *Run, r *Rng, cfg GenCfg, mset bool) {
 	c.Probes = append(c.Probes, Probe{Kind: "direct", Rel: "C08 adds the listed elements and leaves all other members untouched — also in a document returned earlier from the same source", Want: verdict})
 	run.Count("branching-add-only")
 	run.Add(c)
+}
+
+// addTypedTargetTies: strict hunks applied to documents whose array nodes carry the Go dynamic types jsonSet /
+// jsonMultiset / jsonList, as an earlier Patch under those readings returns them (a second step of an API chain): the
+// base cases of the typed nodes' patch methods (compare with the removed value by the NODE's own Equals, then replace)
+// are tied to the model; the documents are outside the properties' quantifier, so no oracle is applied.
+func addTypedTargetTies(run *Run, r *Rng) {
+	elems := []*Val{VNum(1), VNum(2), VStr("a"), VObj("id", VNum(1)), VNum(1)}
+	for _, tag := range []string{"s", "m", "l"} {
+		k := 1 + r.Intn(4)
+		xs := []*Val{}
+		for j := 0; j < k; j++ {
+			xs = append(xs, elems[r.Intn(len(elems))].Clone())
+		}
+		typed := &Val{K: KArr, Tag: tag, A: xs}
+		// the removed value: the same elements in order, reversed, with one dropped, or something else
+		var rem *Val
+		switch r.Intn(4) {
+		case 0:
+			rem = VArr(cloneAll(xs)...)
+		case 1:
+			ys := cloneAll(xs)
+			for i, j := 0, len(ys)-1; i < j; i, j = i+1, j-1 {
+				ys[i], ys[j] = ys[j], ys[i]
+			}
+			rem = VArr(ys...)
+		case 2:
+			rem = VArr(cloneAll(xs[1:])...)
+		default:
+			rem = VStr("other")
+		}
+		var t *Val
+		var path string
+		switch r.Intn(3) {
+		case 0:
+			t, path = typed, ""
+		case 1:
+			t, path = VObj("k", typed, "z", VNum(0)), "K\"6b"
+		default:
+			t, path = VArr(VNum(0), typed), "I1"
+		}
+		dw := strings.Join(strings.Fields(fmt.Sprintf("< ( s %s | | %s | \"6e6577 | ) >", path, rem.Wire())), " ")
+		tw := t.Wire()
+		out := implPatch(tw, dw)
+		c := Case{Recipe: Recipe{"c08typed", []string{tw, dw}}, Desc: map[string]string{"mode": "typed-target (tie only)", "target": t.Human(), "target_wire": tw, "diff": dw, "impl_patch": out}}
+		c.Nontrivial = true
+		c.Sig = "typed|" + tw + "|" + dw
+		c.Probes = append(c.Probes, Probe{Kind: "corr", Rel: "Patch = patchM", Line: fmt.Sprintf("patch %s %s", tw, dw), Want: out})
+		run.Count("mode:typed-target-" + tag)
+		run.Add(c)
+	}
+}
+
+func cloneAll(xs []*Val) []*Val {
+	out := make([]*Val, len(xs))
+	for i, x := range xs {
+		out[i] = x.Clone()
+	}
+	return out
 }
 
 func addC08Case(run *Run, label string, t *Val, dw string) {
@@ -1446,6 +1508,12 @@ func init() {
 	recipes["c05"] = func(run *Run, a []string) { addC05Case(run, mustOpts(a[0]), "corpus", mustVal(a[1]), mustVal(a[2])) }
 	recipes["c03"] = func(run *Run, a []string) { addC03Case(run, mustVal(a[0]), a[1]) }
 	recipes["c08"] = func(run *Run, a []string) { addC08Case(run, a[0], mustVal(a[1]), a[2]) }
+	recipes["c08typed"] = func(run *Run, a []string) {
+		out := implPatch(a[0], a[1])
+		c := Case{Recipe: Recipe{"c08typed", a}, Desc: map[string]string{"target_wire": a[0], "diff": a[1], "impl_patch": out}, Nontrivial: true, Sig: "typed|" + a[0] + "|" + a[1]}
+		c.Probes = append(c.Probes, Probe{Kind: "corr", Rel: "Patch = patchM", Line: fmt.Sprintf("patch %s %s", a[0], a[1]), Want: out})
+		run.Add(c)
+	}
 	recipes["largearr"] = func(run *Run, a []string) { addLargeArrayCase(run, mustVal(a[0]), mustVal(a[1]), a[2] == "T") }
 	recipes["c07"] = func(run *Run, a []string) { addC07Case(run, mustOpts(a[0]), "corpus", mustVal(a[1]), mustVal(a[2])) }
 	recipes["c06"] = func(run *Run, a []string) {
